@@ -307,6 +307,34 @@ fn run(input: RunInput) -> ScenFuture {
                 w.violate("reachable-high-peer-not-connected", "final-phase", format!("t{k} is a known High-affinity peer whose address list contains a live address and has been reachable for {} ms (max backoff {max_ms} ms, interval {} ms, connect timeout {ct_ms} ms) but is not connected", (t_end - t_final) / MS, interval_ms + jitter_ms));
             }
         }
+        // ---- "and again after the connection is lost", with the dialer's application busy: a target
+        //      sends the dialer a request whose handler is CPU-bound for longer than everything
+        //      below and hangs up. The connection is gone whatever that handler is doing: the peer
+        //      is dialed again at the next check and really connected (the target lists the dialer
+        //      over a new connection) one interval and a connect time later ----
+        if !w.violated() && !final_high.is_empty() && w.flag("loss_while_a_handler_of_that_peer_is_cpu_bound", 0.3) {
+            let k = final_high[r.gen_range(0..final_high.len())];
+            if n.net.peers().contains(&ids[k]) && targets[k].net.peers().contains(&n.peer_id) {
+                // (the same allowance as the final phase: the peer's address list may begin with
+                // dead addresses, each costing a connect timeout, a backoff and the ticks between)
+                let allowance_ms = final_wait / MS;
+                let hold_ms = allowance_ms + 3_000;
+                let (tn, nid) = (targets[k].net.clone(), n.peer_id);
+                tokio::spawn(async move {
+                    let _ = tn.rpc(nid, anemo::Request::new(bytes::Bytes::from_static(b"busy")).with_header("x-hold-ms", hold_ms.to_string())).await;
+                });
+                sleep_ms(2 * lat_max / 1000 + 5).await;
+                let _ = targets[k].net.disconnect(n.peer_id);
+                let t_loss = w.now_ns();
+                sleep_ms(allowance_ms).await;
+                if !targets[k].net.peers().contains(&n.peer_id) {
+                    w.violate("high-peer-not-redialed-after-loss", "handler-cpu-bound", format!("t{k} hung up at {} ms while a request of its was in a CPU-bound handler of the dialer ({hold_ms} ms); {allowance_ms} ms later (the final phase's allowance; interval + jitter {} ms, connect timeout {ct_ms} ms) the dialer has not connected to it again (the dialer lists it: {})", t_loss / MS, period / MS, n.net.peers().contains(&ids[k])));
+                }
+                w.probe("loss-while-handler-cpu-bound");
+                // let the held handler end before the run is judged further
+                sleep_ms(3_500).await;
+            }
+        }
         // ---- safety oracle over the attempts observed on the fabric ----
         let attempts: Vec<(u64, SocketAddr)> = w.fabric.lock().attempts.iter().filter(|a| a.from == n.addr).map(|a| (a.at_ns, a.to)).collect();
         let events = evlog.lock().unwrap().clone();
